@@ -26,7 +26,8 @@ TRUSTED = ["Lean 4.33 kernel", "axioms: propext, Classical.choice, Quot.sound on
            "harness/c09.cpp (graph dump through the public hlim API; pointer -> handle maps) + Driver/C09.lean (dump parser, checked by a "
            "print/parse round trip on every dump)",
            "GateryModel/C09/Spec.lean: tabulated graph <-> State, type/width requirements of the core node kinds (evaluated, not proved)",
-           "the DefaultPostprocessing pass sequence is replayed through public Circuit methods (copy of Circuit.cpp:1675-1782) until the pass-boundary hook exists",
+           "pass boundaries: hook hlim::verif_passBoundary (guard GATERY_VERIF) for the real Default/MinimalPostprocessing; the repeated/shuffled variants "
+           "replay the DefaultPostprocessing pass sequence through public Circuit methods (copy of Circuit.cpp generalOptimization/run)",
            "ASan/UBSan (gcc 12) for the memory-safety exploration"]
 
 
@@ -201,7 +202,7 @@ def main():
     chk.finish("proof", cov, ["memory safety of the object code (use-after-free, out-of-bounds) is exploration under sanitizers on generated cases, not proof",
                               "operations are modelled under their C++ preconditions (valid node pointer, port index in range); calls outside them are UB and not generated",
                               "passes other than cullOrphanedSignalNodes are covered by evaluating Inv at their boundaries, not by a model of the pass",
-                              "pass boundaries inside DefaultPostprocessing are obtained by replaying the pass sequence through public methods (hook pending)"])
+                              "repeated application / shuffled storage order use a replay of the pass sequence through public Circuit methods, not the hook"])
 
 
 if __name__ == "__main__":
